@@ -1,6 +1,7 @@
 package main
 
 import (
+	"sync/atomic"
 	"fmt"
 	"io"
 	"os"
@@ -68,10 +69,29 @@ func explore(ld *loaded, j *Job, workers int, seed int64, verbose bool) *JobResu
 	rng := rand.New(rand.NewSource(seed))
 	sampleEvery := 1 // adaptive reservoir: keep at most maxSamplesKept samples spread over the run
 
+	// watchdog: a path that does not finish (a bug in the cooperative scheduler would hang silently) ends the run
+	started := make([]atomic.Int64, workers)
+	stopWatch := make(chan struct{})
+	go func() {
+		for {
+			select {
+			case <-stopWatch:
+				return
+			case <-time.After(10 * time.Second):
+				for i := range started {
+					if t := started[i].Load(); t != 0 && time.Since(time.Unix(0, t)) > 5*time.Minute {
+						fmt.Printf("MACHINERY-FAILURE job %s: a path has been running for more than 5 minutes (engine hang); aborting\n", j.Name)
+						os.Exit(2)
+					}
+				}
+			}
+		}
+	}()
+	defer close(stopWatch)
 	var wg sync.WaitGroup
 	for w := 0; w < workers; w++ {
 		wg.Add(1)
-		go func() {
+		go func(w int) {
 			defer wg.Done()
 			solver := newSolver(timeout)
 			defer solver.close()
@@ -95,7 +115,9 @@ func explore(ld *loaded, j *Job, workers int, seed int64, verbose bool) *JobResu
 				want := rng.Intn(sampleEvery) == 0
 				mu.Unlock()
 
+				started[w].Store(time.Now().UnixNano())
 				pr := eng.runPath(solver, h, prefix, want)
+				started[w].Store(0)
 
 				mu.Lock()
 				active--
@@ -143,7 +165,7 @@ func explore(ld *loaded, j *Job, workers int, seed int64, verbose bool) *JobResu
 				mu.Unlock()
 				cond.Broadcast()
 			}
-		}()
+		}(w)
 	}
 	wg.Wait()
 	res.Wall = time.Since(t0)
